@@ -212,8 +212,10 @@ def run(task):
                 stds = ("f2003", "f2008")
                 for desc, pos, m in itertools.chain(token_mutants(stmts, alphabet, only=probe), line_mutants(stmts)):
                     text = render(m)
-                    for std in stds:
-                        run_one(res, text, std, True, "%s %s@%s" % (tid, desc, pos), base)
+                    run_one(res, text, "f2008", True, "%s %s@%s" % (tid, desc, pos), base)
+                    light = tier == "quick" and not (desc in ("del", "dup", "swap") or desc.startswith("line") or desc.split(":", 1)[-1] in alphabet[:8])
+                    if not light:
+                        run_one(res, text, "f2003", True, "%s %s@%s" % (tid, desc, pos), base)
                     if desc in ("del", "dup", "swap"):
                         run_one(res, text, "f2008", False, "%s %s@%s" % (tid, desc, pos), base)
             res.sample({"template": tid, "mutant": render(next(iter(token_mutants(stmts, alphabet, only=probe)))[2])})
@@ -277,7 +279,7 @@ def run(task):
             stmts = tokens_of_prog(prog)
             base = render(stmts)
             inner = set(range(1, len(prog) - 1))
-            for desc, pos, m in itertools.chain(token_mutants(stmts, alphabet[:6] if vec else alphabet[:12], only=inner), line_mutants(stmts)):
+            for desc, pos, m in itertools.chain(token_mutants(stmts, alphabet[:5] if vec else alphabet[:10], only=inner), line_mutants(stmts)):
                 run_one(res, render(m), "f2008", True, "S/%s%s %s@%s" % (task[2], list(vec), desc, pos), base)
         res.sample({"spec_construct": task[2], "base": base})
     elif kind == "H":
@@ -375,6 +377,7 @@ def run(task):
             for d1, p1, m1 in token_mutants(stmts, alphabet, only=probe):
                 for d2, p2, m2 in token_mutants(m1, alphabet, only=probe):
                     run_one(res, render(m2), "f2008", True, "%s %s@%s+%s@%s" % (tid, d1, p1, d2, p2), base)
+    res.counters["layer_%s_cases" % kind] += res.evals
     return res
 
 
